@@ -454,6 +454,21 @@ func (w byteSimWriter) WriteByte(c byte) error {
 	return err
 }
 
+// bufSimWriter adds Grow with the contract of bytes.Buffer and
+// strings.Builder to the simulated writer: a negative count panics, and so
+// does a count for which no memory can be had.  Nobody has a reason to call
+// it.
+type bufSimWriter struct{ *kernel.SimWriter }
+
+func (w bufSimWriter) Grow(n int) {
+	switch {
+	case n < 0:
+		panic("verif: Grow: negative count")
+	case n > 1<<32:
+		panic(bytes.ErrTooLarge)
+	}
+}
+
 // errPool: kinds of errors a wrapped reader may fail with.
 type eofLikeError struct{ op string }
 
@@ -526,6 +541,10 @@ func runWriter(c *ctx) {
 	}
 	if tp.Bool(1, 6) {
 		sw.ShortNil = 4
+	}
+	if _, plain := wrapped.(*kernel.SimWriter); plain && tp.Bool(1, 3) {
+		wrapped = bufSimWriter{sw}
+		rc.Stats.Probe("wrapped-writer-offers-Grow")
 	}
 	tw := ioutil.NewTruncatedWriter(wrapped, limit)
 	c.logf("writer: limit=%d failing=%v", limit, sw.FailRate > 0)
